@@ -1284,7 +1284,7 @@ let parse_directive_value types digit_val codec_class relaxed name vtxt =
        if encoding_lookup_raises codec_class vtxt
        then Err (ECodec, name)
        else Ok (VStr (normalise_encoding_name codec_class vtxt))
-     | TDefer -> Err (EAssertion, name)
+     | TDefer -> Err (ENotSettable, name)
      | TNoValue -> Ok VNone
      | _ -> Err (ETypeError, name))
   | None -> Ok VNone
@@ -3251,7 +3251,7 @@ let g_types =
     XH))))))) :: []))))))))))))))), TStr) :: ((((Npos (XI (XI (XI (XO (XI (XI
     XH))))))) :: ((Npos (XI (XO (XO (XO (XO (XI XH))))))) :: ((Npos (XO (XI
     (XO (XO (XI (XI XH))))))) :: ((Npos (XO (XI (XI (XI (XO (XI
-    XH))))))) :: [])))), TCallCrash) :: ((((Npos (XI (XI (XI (XO (XI (XI
+    XH))))))) :: [])))), TDefer) :: ((((Npos (XI (XI (XI (XO (XI (XI
     XH))))))) :: ((Npos (XI (XO (XO (XO (XO (XI XH))))))) :: ((Npos (XO (XI
     (XO (XO (XI (XI XH))))))) :: ((Npos (XO (XI (XI (XI (XO (XI
     XH))))))) :: ((Npos (XO (XI (XI (XI (XO XH)))))) :: ((Npos (XI (XO (XI
